@@ -220,4 +220,39 @@ def line_to_circle(line_point, line_direction, center, radius, normal):
     dist = np.linalg.norm(closest_point_line - closest_point_circle)
     return (dist, closest_point_line, closest_point_circle)
 ''', ["SILENT"]),
+    # C16-r5 repaired: pressures (stiffness * potential) are formed by the caller and the moduli are no longer passed on
+    M(["C16", "C15"], "benign-pressures-formed-by-the-caller", "distance3d/hydroelastic_contact/_interface.py", "find_contact_surface", "<FUNCTION>", '''
+def find_contact_surface(rigid_body1, rigid_body2, use_aabb_trees=False):
+    rigid_body1.express_in(rigid_body2.body2origin_)
+    if use_aabb_trees:
+        _, broad_tetrahedra1, broad_tetrahedra2, broad_pairs = rigid_body1.aabb_tree.overlaps_aabb_tree(rigid_body2.aabb_tree)
+    else:
+        broad_tetrahedra1, broad_tetrahedra2, broad_pairs = all_aabbs_overlap(rigid_body1.aabbs, rigid_body2.aabbs)
+    X1 = barycentric_transforms(rigid_body1.tetrahedra_points[broad_tetrahedra1])
+    X2 = barycentric_transforms(rigid_body2.tetrahedra_points[broad_tetrahedra2])
+    X1 = {j: X1[i] for i, j in enumerate(broad_tetrahedra1)}
+    X2 = {j: X2[i] for i, j in enumerate(broad_tetrahedra2)}
+    intersection_result = intersect_tetrahedron_pairs(broad_pairs, rigid_body1.tetrahedra_points, rigid_body2.tetrahedra_points, rigid_body1.youngs_modulus * rigid_body1.tetrahedra_potentials, rigid_body2.youngs_modulus * rigid_body2.tetrahedra_potentials, X1, X2)
+    contact_surface = ContactSurface(rigid_body2.body2origin_, *intersection_result)
+    areas, coms, forces, triangles = contact_surface_forces(contact_surface, rigid_body1)
+    contact_surface.add_polygon_info(areas, coms, forces, triangles)
+    return contact_surface
+''', ["SILENT"]),
+    M(["C16", "C15"], "pressures-and-moduli-both-passed", "distance3d/hydroelastic_contact/_interface.py", "find_contact_surface", "<FUNCTION>", '''
+def find_contact_surface(rigid_body1, rigid_body2, use_aabb_trees=False):
+    rigid_body1.express_in(rigid_body2.body2origin_)
+    if use_aabb_trees:
+        _, broad_tetrahedra1, broad_tetrahedra2, broad_pairs = rigid_body1.aabb_tree.overlaps_aabb_tree(rigid_body2.aabb_tree)
+    else:
+        broad_tetrahedra1, broad_tetrahedra2, broad_pairs = all_aabbs_overlap(rigid_body1.aabbs, rigid_body2.aabbs)
+    X1 = barycentric_transforms(rigid_body1.tetrahedra_points[broad_tetrahedra1])
+    X2 = barycentric_transforms(rigid_body2.tetrahedra_points[broad_tetrahedra2])
+    X1 = {j: X1[i] for i, j in enumerate(broad_tetrahedra1)}
+    X2 = {j: X2[i] for i, j in enumerate(broad_tetrahedra2)}
+    intersection_result = intersect_tetrahedron_pairs(broad_pairs, rigid_body1.tetrahedra_points, rigid_body2.tetrahedra_points, rigid_body1.youngs_modulus * rigid_body1.tetrahedra_potentials, rigid_body2.youngs_modulus * rigid_body2.tetrahedra_potentials, X1, X2, rigid_body1.youngs_modulus, rigid_body2.youngs_modulus)
+    contact_surface = ContactSurface(rigid_body2.body2origin_, *intersection_result)
+    areas, coms, forces, triangles = contact_surface_forces(contact_surface, rigid_body1)
+    contact_surface.add_polygon_info(areas, coms, forces, triangles)
+    return contact_surface
+''', ["R-STIFFNESS", "find_contact_surface"]),
 ]
